@@ -374,8 +374,12 @@ public:
         }
         o["name"] = nm;
         o["usr"] = usrOf(rd);
-        o["file"] = fileOf(rd->getLocation());
-        o["line"] = lineOf(rd->getLocation());
+        SourceLocation cloc = rd->getLocation();
+        if (auto* pat = rd->getTemplateInstantiationPattern()) {
+            cloc = pat->getLocation();   // an explicit instantiation is located where the template is written
+        }
+        o["file"] = fileOf(cloc);
+        o["line"] = lineOf(cloc);
         o["abstract"] = rd->isAbstract();
         o["inst"] = isa<ClassTemplateSpecializationDecl>(rd);
         json::Array bases;
